@@ -275,7 +275,7 @@ add("C19",
     design_ref="DESIGN.md §4.1, §5 C19",
     level_text="Breadth-first search (depth 3 quick / 4 thorough) from two initial states over {backup, get_all_snapshots, get_snapshots([full id]), forget, prune, check with and without trust-cache, read all snapshots} through a handle with a real cache directory on tmpfs - "
                "each run in parallel through an uncached handle on a clone of the same repository: result (canonicalised Ok payload or Err) and resulting repository must be equal - interleaved with {backup, forget, prune} through an uncached handle (another process) "
-               "and the cache faults truncate a cached file, replace it by other bytes of the same size, plant junk names. After every operation that lists a file type, the cache must hold no snapshot/index file the repository lacks or stores with another size.",
+               "and the cache faults truncate a cached file, append bytes to it, replace it by other bytes of the same size, plant junk names. After every operation that lists a file type, the cache must hold no snapshot/index file the repository lacks or stores with another size.",
     level_note="The cache directory content is part of the canonical state (described by decoded file content, not by ids).",
     shards={"quick": 16, "thorough": 16},
     require_counts=["differential_comparisons", "action:TruncateCached", "action:uncached:Forget"],
